@@ -5,3 +5,4 @@ import Jasm.Model.Stream
 import Jasm.Model.Parser
 import Jasm.Model.Macro
 import Jasm.Model.Pipeline
+import Jasm.Spec.Den
